@@ -173,6 +173,7 @@ func (w *CronWorker) refreshUpdatedJobConfigs(now time.Time) {
 	}()
 
 	// Perform at most 1000 flushes per iteration to prevent backlogging.
+flushUpdated:
 	for flushes < 1000 {
 		select {
 		case jobConfig := <-w.updatedConfigs:
@@ -187,6 +188,14 @@ func (w *CronWorker) refreshUpdatedJobConfigs(now time.Time) {
 				)
 				continue
 			}
+
+			// The JobConfig was deleted (or replaced by a new JobConfig with the same
+			// name), do not add it back to the heap.
+			jobConfig = w.getCurrent(jobConfig)
+			if jobConfig == nil {
+				continue
+			}
+
 			if _, err := w.schedule.Bump(jobConfig, now); err != nil {
 				klog.ErrorS(err, "croncontroller: cannot bump updated job config in heap",
 					"namespace", jobConfig.Namespace,
@@ -196,9 +205,47 @@ func (w *CronWorker) refreshUpdatedJobConfigs(now time.Time) {
 			}
 		default:
 			// Nothing more to flush.
+			break flushUpdated
+		}
+	}
+
+	// Add all JobConfigs that were newly added into the heap. If the JobConfig is
+	// already in the heap (e.g. it was loaded when the worker was initialized), we
+	// must not touch it, otherwise we would lose its next schedule time.
+	for flushes < 1000 {
+		select {
+		case jobConfig := <-w.addedConfigs:
+			flushes++
+			if w.schedule.Has(jobConfig) {
+				continue
+			}
+			jobConfig = w.getCurrent(jobConfig)
+			if jobConfig == nil {
+				continue
+			}
+			if _, err := w.schedule.Bump(jobConfig, now); err != nil {
+				klog.ErrorS(err, "croncontroller: cannot add new job config to heap",
+					"namespace", jobConfig.Namespace,
+					"name", jobConfig.Name,
+				)
+				continue
+			}
+		default:
+			// Nothing more to add.
 			return
 		}
 	}
+}
+
+// getCurrent returns the latest version of the given JobConfig from the cache.
+// Returns nil if it was deleted, or replaced by another JobConfig with the same
+// name.
+func (w *CronWorker) getCurrent(jobConfig *execution.JobConfig) *execution.JobConfig {
+	latest, err := w.jobconfigInformer.Lister().JobConfigs(jobConfig.Namespace).Get(jobConfig.Name)
+	if err != nil || latest.UID != jobConfig.UID {
+		return nil
+	}
+	return latest
 }
 
 // syncOne reconciles a single JobConfig and enqueues Jobs to be created.
